@@ -28,3 +28,43 @@ package controllers
 //@   assert before sort.Slice: [copied] forall x T :: (x in res) == old(x in toSort)
 //@   assert after sort.Slice: [permuted] forall x T :: (x in res) == pre(x in res)
 //@   modifies fresh []T
+
+// ---- C03 / C07 (mechanism): the service reconciler ----
+// reprocessAll's comparator: more recorded addresses first
+//@ func (*ServiceReconciler).reprocessAll$1
+//@   requires 0 <= i && i < len(sortedServices) && 0 <= j && j < len(sortedServices)
+//@   ensures result == (len(sortedServices[i].Status.LoadBalancer.Ingress) > len(sortedServices[j].Status.LoadBalancer.Ingress))
+// the registered handler (controller / speaker SetBalancer) does not write the reconciler's own fields (assumed)
+//@ func field:go.universe.tf/metallb/internal/k8s/controllers.ServiceReconciler.Handler
+//@   trusted
+//@   modifies nothing
+// reprocessAll (abstracted mode): Services are handed to the handler with those that already hold addresses first
+//@ func (*ServiceReconciler).reprocessAll
+//@   abstract
+//@   call sort.Slice with less(a, b) := len(a.Status.LoadBalancer.Ingress) > len(b.Status.LoadBalancer.Ingress)
+//@   requires r != nil
+//@   requires [errVar] errRetry != nil
+//@   ensures [loadedOnlyWhenQuiet] r.initialLoadPerformed ==> old(r.initialLoadPerformed) || result1 == nil
+//@   ensures [noRetryMeansLoaded] result1 == nil ==> r.initialLoadPerformed
+//@   loop 1 binds service
+//@   loop 1 invariant r.initialLoadPerformed == old(r.initialLoadPerformed)
+//@   assert after sort.Slice: [assignedFirst] forall a int, b int :: 0 <= a && a < b && b < len(sortedServices) ==> len(sortedServices[a].Status.LoadBalancer.Ingress) >= len(sortedServices[b].Status.LoadBalancer.Ingress)
+// reading objects through the API client and formatting them has no effect on the reconciler's state (assumed)
+//@ func (*ServiceReconciler).serviceFor
+//@   trusted
+//@   modifies nothing
+//@ func epSlicesForService
+//@   trusted
+//@   modifies nothing
+//@ func filterByLoadBalancerClass
+//@   trusted
+//@   modifies nothing
+//@ func dumpResource
+//@   trusted
+//@   modifies nothing
+// reconcileService (abstracted mode): single-service events are dropped until the first full sync has completed, and a
+// reload is requested only when the handler asked for one
+//@ func (*ServiceReconciler).reconcileService
+//@   abstract
+//@   assert before Handler: [afterInitialLoad] r.initialLoadPerformed
+//@   assert before forceReload: [onRequest] res == SyncStateReprocessAll
